@@ -51,7 +51,7 @@ type Watcher struct {
 	id        int
 	watches   []watch
 	queue     []fsnotify.Event // kernel queue + fsnotify's read buffer
-	stuck     bool             // reader goroutine blocked sending on Errors (nobody reads it)
+	errSent   bool             // fsnotify's reader goroutine is in sendError: it delivers nothing until Errors is read
 	maxQ      int
 	closed    bool
 	real      *fsnotify.Watcher
@@ -94,23 +94,7 @@ func (s *Sim) push(ino *inode, op fsnotify.Op, removeWatch bool) {
 			if w.watches[i].dir || w.watches[i].ino != ino {
 				continue
 			}
-			ev := fsnotify.Event{Name: w.watches[i].path, Op: op}
-			if n := len(w.queue); n > 0 && w.queue[n-1] == ev && s.Tape.Draw(2) == 1 {
-				// identical to the unread tail of the kernel queue: inotify merges them
-				s.FaultsFired[FEvCoalesce]++
-			} else if len(w.queue) >= w.maxQ {
-				// IN_Q_OVERFLOW: fsnotify sends ErrEventOverflow on Errors and blocks until somebody reads it
-				if !w.stuck {
-					s.FaultsFired[FEvOverflow]++
-					select {
-					case w.Errors <- fsnotify.ErrEventOverflow:
-					default:
-						w.stuck = true
-					}
-				}
-			} else {
-				w.queue = append(w.queue, ev)
-			}
+			s.enqueue(w, fsnotify.Event{Name: w.watches[i].path, Op: op})
 			if removeWatch {
 				for zz := i; zz+1 < len(w.watches); zz++ {
 					w.watches[zz] = w.watches[zz+1]
@@ -138,14 +122,32 @@ func (s *Sim) pushDir(path string, op fsnotify.Op) {
 			if !w.watches[i].dir || w.watches[i].path != dir {
 				continue
 			}
-			ev := fsnotify.Event{Name: path, Op: op}
-			if n := len(w.queue); n > 0 && w.queue[n-1] == ev && s.Tape.Draw(2) == 1 {
-				s.FaultsFired[FEvCoalesce]++
-			} else if len(w.queue) < w.maxQ {
-				w.queue = append(w.queue, ev)
-			}
+			s.enqueue(w, fsnotify.Event{Name: path, Op: op})
 		}
 		s.ChanWake()
+	}
+}
+
+// overflowMark stands for IN_Q_OVERFLOW in the kernel queue.
+var overflowMark = fsnotify.Event{Name: "\x00IN_Q_OVERFLOW"}
+
+// enqueue models the kernel side of inotify: an event identical to the unread tail is merged; when the queue is
+// full (fs.inotify.max_queued_events) one overflow record is queued and events are dropped until there is room.
+//
+//go:norace
+func (s *Sim) enqueue(w *Watcher, ev fsnotify.Event) {
+	n := len(w.queue)
+	switch {
+	case n > 0 && w.queue[n-1] == ev && s.Tape.Draw(2) == 1:
+		s.FaultsFired[FEvCoalesce]++
+	case n >= w.maxQ:
+		if w.queue[n-1] != overflowMark {
+			w.queue = append(w.queue, overflowMark)
+			s.FaultsFired[FEvOverflow]++
+			Probe(PInotifyOverflow)
+		}
+	default:
+		w.queue = append(w.queue, ev)
 	}
 }
 
@@ -330,7 +332,7 @@ func NewWatcher() (*Watcher, error) {
 		}
 		return &Watcher{Events: rw.Events, Errors: rw.Errors, real: rw}, nil
 	}
-	w := &Watcher{Events: make(chan fsnotify.Event, 1), Errors: make(chan error), id: len(s.watchers), maxQ: s.InotifyQueueMax}
+	w := &Watcher{Events: make(chan fsnotify.Event, 1), Errors: make(chan error, 1), id: len(s.watchers), maxQ: s.InotifyQueueMax}
 	if w.maxQ <= 0 {
 		w.maxQ = 16384
 	}
@@ -444,7 +446,24 @@ func pumpWatchers() {
 		return
 	}
 	for _, w := range s.watchers {
-		if w.dead || w.closed || w.stuck || len(w.queue) == 0 {
+		if w.dead || w.closed {
+			continue
+		}
+		if w.errSent {
+			// the real Errors channel is unbuffered: sendError returns only when somebody has received the error. The
+			// model's channel has room for one, and the reader goroutine counts as blocked until it is empty again.
+			if len(w.Errors) > 0 {
+				continue
+			}
+			w.errSent = false
+		}
+		if len(w.queue) == 0 {
+			continue
+		}
+		if w.queue[0] == overflowMark {
+			w.queue = w.queue[1:]
+			w.errSent = true
+			w.Errors <- fsnotify.ErrEventOverflow
 			continue
 		}
 		if len(w.Events) == 0 {
@@ -452,6 +471,34 @@ func pumpWatchers() {
 			w.queue = w.queue[1:]
 			w.Delivered++
 			w.Events <- ev
+		}
+	}
+}
+
+// DrainForCalibration plays the consumer of a simulated watcher outside a task (calibration self-test only): it
+// receives from Events, and from Errors when readErrors is set, until nothing moves any more.
+//
+//go:norace
+func (w *Watcher) DrainForCalibration(readErrors bool) (events int, errs []error) {
+	for {
+		pumpWatchers()
+		moved := false
+		select {
+		case <-w.Events:
+			events++
+			moved = true
+		default:
+		}
+		if readErrors {
+			select {
+			case e := <-w.Errors:
+				errs = append(errs, e)
+				moved = true
+			default:
+			}
+		}
+		if !moved {
+			return
 		}
 	}
 }
@@ -470,7 +517,7 @@ type WatcherStats struct {
 func (s *Sim) WatcherStats() []WatcherStats {
 	var r []WatcherStats
 	for _, w := range s.watchers {
-		r = append(r, WatcherStats{Inc: w.inc, Watches: len(w.watches), Queued: len(w.queue) + len(w.Events), Stuck: w.stuck, Delivered: w.Delivered, Dead: w.dead})
+		r = append(r, WatcherStats{Inc: w.inc, Watches: len(w.watches), Queued: len(w.queue) + len(w.Events), Stuck: w.errSent && len(w.Errors) > 0, Delivered: w.Delivered, Dead: w.dead})
 	}
 	return r
 }
